@@ -28,7 +28,7 @@ def normalise(tr, scn):
         if ev == "call_exc":
             d["kind"] = e.get("call", "")
             # the scenario turned the "resize with running jobs" warning into an error: the call legitimately raises it
-            d["warn"] = bool(scn["exec"].get("strict_resize")) and e.get("type") == "UserWarning" and "Trying to resize" in e.get("what", "")
+            d["warn"] = bool(scn["exec"].get("strict_resize") or scn["exec"].get("strict_warnings")) and e.get("type") == "UserWarning" and "Trying to resize" in e.get("what", "")
         if "code" in e:
             d["code"] = e["code"] if isinstance(e["code"], int) and e["code"] >= 0 else 255
         if ev in ("resolve", "submit_rejected"):
@@ -377,7 +377,10 @@ def fam_timeout(rng):
     if rng.random() < 0.3:
         users["u2"] = [["submit", 50, "ok"], ["sleep", 1.0], ["submit", 51, "ok"], ["wait", 50], ["wait", 51]]
         u1.insert(len(u1) - 1, ["wait_all"])
-    return dict(exec=dict(kind="plain", max_workers=maxw, timeout=0.5, no_exitcode=rng.random() < 0.2), users=users, fam="timeout")
+    # strict_warnings: the program runs with -W error::UserWarning -- the executor's own warnings ("A worker stopped while some
+    # jobs were given to the executor") are then exceptions in whichever thread issues them
+    return dict(exec=dict(kind="plain", max_workers=maxw, timeout=0.5, no_exitcode=rng.random() < 0.2, strict_warnings=rng.random() < 0.25),
+                users=users, fam="timeout")
 
 
 def fam_saturation(rng):
